@@ -27,6 +27,7 @@ the peer map or closing anything while every accept/read error leaves the loop, 
 close()/shutdown is reachable from the per-request code.
 The typed-RPC layer between the wire and the handler (Rpc::unary, codecs, Status conversions) has an empty panic inventory (C06.1c, C17.6 re-evaluated); the list of panic-capable calls includes the String / Bytes / slice APIs documented to panic on out-of-range or non-char-boundary arguments.
 The connection manager's own panic sites (reachable through dial results and task joins) keep their re-checked justifications (C08.5 re-evaluated, finding F3b excepted).
+No arm of the handler loop has a precondition, and no arm body that continues the loop contains a suspension point (a drain of a stream the peer never finishes would stall the peer's other requests).
 """
 TRUSTED = ["third-party bodies are not analysed: matchit::Router::at, bincode::deserialize, tokio-util codec, quinn (stated, not assumed away)",
            "rustls rejects empty certificate chains when client auth is mandatory (try_peer_id unwraps)"]
